@@ -23,7 +23,7 @@ META = {
                   "nested extensions, keys repeated at nested levels and datetime inputs in 5 time zones incl. naive: parse without naming the "
                   "version gives the same class and an equal object, re-serialization is byte identical, option texts denote the same value up to "
                   "defaulted optionals, pretty output lists top-level properties in specification order.",
-    "level_text_more": 'Also: every class constructed from naive/UTC/offset datetimes with sub-millisecond digits and with defaulted id/times; bundles whose members are of the other spec version or carry custom content; values taken from an object of one spec version and given to a constructor of the other. Timestamp objects carrying each of the 6 precision settings into 6 constructors; str(), serialize(), fp_serialize() and parse from a file object agree.',
+    "level_text_more": 'Also: every class constructed from naive/UTC/offset datetimes with sub-millisecond digits and with defaulted id/times; bundles whose members are of the other spec version or carry custom content; values taken from an object of one spec version and given to a constructor of the other. Timestamp objects carrying each of the 6 precision settings into 6 constructors; str(), serialize(), fp_serialize() and parse from a file object agree. Rounds 5-6: types registered inside the case whose first instance carries a registered toplevel extension; one type name offered to two registration decorators; nulls / empty containers nested in custom values; order of unregistered toplevel-extension properties; values given as bytes / numeric text.',
     "level_note": "Obligation (d) is bounded case enumeration selected by the solver, not a verdict over all values. JSON text layer trusted beyond "
                   "the enumerated pools. Specification order is taken from the frozen model (props/spec_model.json).",
     "technique": "CrossHair symbolic execution of constructor/encoders/ordering kernel, AST-to-SMT timestamp fixed point (pysym), solver-selected "
